@@ -41,13 +41,31 @@ theorem C12_no_create (env : Env) (args : List Bytes) (r : CmdRes)
     (hr : runCommand env args = some r) : created r = [] :=
   other_commands_create_nothing env args r hc hr
 
+/-- **No command writes over an image file**: whatever the catalogue says, no file
+    the extract commands create bears the name of an image given with `--file`
+    (after the repair: a DFS file named like the image, extracted into the image's
+    own directory, used to truncate the image).  The model compares the names as
+    given; the code asks the file system whether they are the same file. -/
+theorem C12_extract_files_spares_images (env : Env) (args : List Bytes) :
+    ∀ p ∈ created (cmdExtractFiles env args), p.1 ∉ env.images :=
+  extract_files_spares_images env args
+
+theorem C12_extract_unused_spares_images (env : Env) (args : List Bytes) :
+    ∀ p ∈ created (cmdExtractUnused env args), p.1 ∉ env.images :=
+  extract_unused_spares_images env args
+
+/-- the images a run has attached: the arguments of its successful `--file` options -/
+theorem C12_run_spares_images (fs : HostFs) (nd : Bool) (cols : Option Nat) (opts : List Opt) (rest : List Bytes)
+    (st : MainState) (hst : optLoop fs nd opts default = .ok st) :
+    (∀ name, Opt.opt .file name ∈ opts → name ∈ st.images) ∧
+    ∀ p ∈ (dfsRun fs nd cols opts rest).files, p.1 ∉ st.images :=
+  run_spares_images fs nd cols opts rest st hst
+
 /-- **Images are only ever read**: the model of a whole run takes the host file
     system as a function and returns, besides stdout/status, only the list of
     *created* files — there is no operation by which it could change an existing
-    file; and every created path is inside the destination given on the command
-    line.  (That no created path coincides with an image path is the caller's
-    obligation; the excluded point — extracting into the image's own directory a
-    DFS file whose name equals the image's — is exercised by the sandbox runs.) -/
+    file; every created path is inside the destination given on the command
+    line, and (above) none is an image file. -/
 theorem C12_run_confined (fs : HostFs) (nd : Bool) (cols : Option Nat) (opts : List Opt) (rest : List Bytes) :
     (dfsRun fs nd cols opts rest).files = [] ∨
     (∃ a0 a, rest = [a0, a] ∧ a ≠ [] ∧ (a0 = strBytes "extract-files" ∨ a0 = strBytes "extract-unused") ∧
